@@ -1,6 +1,7 @@
 package layera
 
 import (
+	"regexp"
 	"fmt"
 	"go/types"
 	"os"
@@ -94,6 +95,8 @@ type KernelResult struct {
 	Stats   *engine.Stats
 	Fatal   []string
 	Sample  []string
+	// NotApplicable: the harness could not be built against this tree (internal API drift)
+	NotApplicable string
 	// PassSamples: models of a few passing paths, replayed natively as translator validation
 	PassSamples []*Counterexample
 	mu          sync.Mutex
@@ -128,6 +131,9 @@ type Session struct {
 	L       *engine.Loaded
 	Overlay map[string][]byte
 	Pkgs    []string
+	// Dropped: harness files that do not compile against this tree (an internal API they use changed), with the
+	// compiler's message; their kernels are not applicable to this tree
+	Dropped map[string]string
 }
 
 // HarnessFiles lists harness sources of a package directory.
@@ -213,11 +219,30 @@ func NewSession(repo string, pkgs []string, extraOverlay map[string][]byte) (*Se
 			patterns = append(patterns, "./"+p)
 		}
 	}
+	dropped := map[string]string{}
 	l, err := engine.Load(repo, "verif", ov, patterns...)
+	for round := 0; err != nil && round < 4; round++ {
+		// harness files written against an internal API that this tree no longer has: drop them and go on with the rest
+		re := regexp.MustCompile(`(/[^\s:;]*/zz_verif_c[0-9]+[a-z_]*\.go):\d+:\d+: ([^;]*)`)
+		found := false
+		for _, m := range re.FindAllStringSubmatch(err.Error(), -1) {
+			if _, ok := ov[m[1]]; ok {
+				if _, seen := dropped[m[1]]; !seen {
+					dropped[m[1]] = strings.TrimSpace(m[2])
+				}
+				delete(ov, m[1])
+				found = true
+			}
+		}
+		if !found {
+			break
+		}
+		l, err = engine.Load(repo, "verif", ov, patterns...)
+	}
 	if err != nil {
 		return nil, err
 	}
-	return &Session{Repo: repo, L: l, Overlay: ov, Pkgs: pkgs}, nil
+	return &Session{Repo: repo, L: l, Overlay: ov, Pkgs: pkgs, Dropped: dropped}, nil
 }
 
 func (s *Session) pkgPath(pkg string) string {
@@ -263,6 +288,12 @@ func (s *Session) Run(k Kernel) *KernelResult {
 	}
 	hfn := pkg.Func(k.Harness)
 	if hfn == nil {
+		for f, why := range s.Dropped {
+			if filepath.Base(filepath.Dir(f)) == filepath.Base(filepath.Join(s.Repo, k.Pkg)) || (k.Pkg == "." && filepath.Dir(f) == s.Repo) {
+				res.NotApplicable = fmt.Sprintf("harness %s does not compile against this tree (%s: %s)", k.Harness, filepath.Base(f), why)
+				return res
+			}
+		}
 		res.Fatal = append(res.Fatal, "harness function not found: "+k.Harness)
 		return res
 	}
